@@ -152,14 +152,17 @@ def enumerate_index_provenance(body, idx_op, depth=0, seen=None):
     return found
 
 
-def shrinks_vector(body):
+def shrinks_vector(body, elem_ty=None):
+    """does the function call a shrinking method on a vector with this element type (any, when unknown)?"""
     for blk in body["blocks"]:
         t = blk["term"]
         if t["k"] == "call":
             n = F.callee_name(t)
             short = n.rsplit("::", 1)[1].split("::<")[0] if "::" in n else n
             if n.startswith("std::vec::Vec") and short in ("remove", "swap_remove", "truncate", "clear", "pop", "drain", "retain", "split_off"):
-                return True
+                g = t["f"].get("gargs", [])
+                if elem_ty is None or not g or g[0] == elem_ty:
+                    return True
     return False
 
 
@@ -225,7 +228,9 @@ def slices(ctx, cone):
                 site = F.site_str(frame.body, t["sp"])
                 seen_sites.add(site)
                 a = [I._deref_all(path, x) for x in args]
-                path.events.append(("seqop", kind, tuple(a), site, len(path.conds), tuple(t["args"])))
+                g_ = t["f"].get("gargs", [])
+                et = g_[0][len("std::vec::Vec<"):-1] if g_ and g_[0].startswith("std::vec::Vec<") else None
+                path.events.append(("seqop", kind, tuple(a), site, len(path.conds), tuple(t["args"]), et))
             return _chain[0](I, path, frame, t, name, args)
         # runner
         if b["kind"] == "Closure":
@@ -260,7 +265,7 @@ def slices(ctx, cone):
             for e in o.path.events:
                 if e[0] != "seqop":
                     continue
-                _, kind, a, site, upto, raw = e
+                _, kind, a, site, upto, raw, elem_ty = e
                 obs = []
                 if kind in ("index", "index_mut", "drain"):
                     ln = ("len", a[0])
@@ -292,7 +297,7 @@ def slices(ctx, cone):
                     sx = U.strip(norm(x))
                     if sx == ("enum_idx",) or (sx[0] == "w" and sx[1] == ("enum_idx",)):
                         continue  # the enumerate() index of the vector being iterated
-                    if what == "index < length" and "'top'" in repr(sx) and len(raw) == 2 and not shrinks_vector(b) \
+                    if what == "index < length" and "'top'" in repr(sx) and len(raw) == 2 and not shrinks_vector(b, elem_ty) \
                             and enumerate_index_provenance(b, raw[1]):
                         continue  # widened by the path analysis; every definition is an enumerate() index (MIR slice)
                     bad = bad or "%s at %s: %s %s %s is not established on the path" % (
@@ -438,6 +443,9 @@ def sub(ctx):
     C05.base_classes(s)
     s = SubCtx(ctx, {"C08.total"})
     C08.total(s)
+    # the slice sites inside the accessors are safe only while length == data.len() (C19.slices relies on it)
+    s = SubCtx(ctx, {"C08.invariant"})
+    C08.invariant(s)
     s = SubCtx(ctx, {"C18.total"})
     C18.total(s)
     # trace recorder: rip - len
@@ -472,12 +480,12 @@ def sub(ctx):
 def decode(ctx):
     ck, facts = ctx.check, ctx.facts
     try:
-        body = facts.method(AXE, "decode_at")
+        _dn, da, fetch = ctx.roles.decoders()
+        body = facts.bodies[da]
     except KeyError as e:
         ck.violation("C19.decode", "decoder front end", str(e))
         return
     where = "%s:%d (decode_at)" % (body["span"][0], body["span"][1])
-    fetch = facts.method(AXE, "mem_read_executable_bytes")["path"]
 
     def icpt(I, path, frame, t, name, args):
         short = name.rsplit("::", 1)[1]
@@ -640,6 +648,8 @@ def loops(ctx, cone):
             nfree += 1
             v = C10.variant(b, lp)
             v2 = counting_variant(b, lp)
+            if v is None and not v2:
+                v = C10.semantic_variant(ctx, b, lp)
             inst = "fn=%s" % (b["name"] or facts.bodies[k.split("::{closure")[0]]["name"])
             if (v and v[0] == "ok") or v2 or (v and v[0] == "bad" and callers_pass_positive(ctx, cone, k, b, lp)):
                 ck.ok("C19.loops", inst)
